@@ -280,6 +280,14 @@ func c43() {
 			}
 		}
 	}
+	// observation (recorded, not judged): the sentinel collision at block round 2^63-1
+	{
+		w := newC43World()
+		ran := ""
+		_ = cstate.WithActivation(c43Ctx(w.mpt, math.MaxInt64), "never-recorded", func() error { ran = "pre-fork branch"; return nil },
+			func() error { ran = "post-fork branch"; return nil })
+		run.Extra["observation_unrecorded_fork_at_block_round_2^63-1"] = ran
+	}
 	if refPre == refPost && run.Violations() == 0 {
 		// only reachable when the gated path is not gated at all: the differential part would be vacuous
 		ev.Fatal("gated path getRandPools shows the same behaviour before and after the fork (%s): vacuous", refPre)
